@@ -85,6 +85,37 @@ func (w *Worker) runC04CLI(rc *simapi.RunConfig) *simapi.RunResult {
 		res.Notes = append(res.Notes, "reference panics (C01 territory, not judged): "+joinShort(panics, 3))
 		return res
 	}
+	// Directed runs: when two or more of the selected checkers touch lock-free code of the
+	// instrumented packages on these files (learned from their reference runs), every other
+	// run keeps only those - few tasks, all of them at the atomic operations - with no
+	// semaphore ordering between them.
+	if focus := w.atomicCheckers(wl, rc.Visits); len(focus) >= 2 && rc.Index%2 == 0 && rc.Expect == nil {
+		wl.EnableAll = false
+		wl.Checkers = focus
+		wl.Concurrency = 2 * len(focus)
+		rc.Args = wl.Args()
+		ref, _ = w.refForVisits(wl, rc.Visits, true)
+		res.Probes["atomic_focus_run"]++
+		// A focus run is tiny (a handful of tasks, a few thousand steps), so it tries many
+		// schedules - sandwich-priority schedules and dense random walks alternately - and
+		// keeps the first one whose output differs from the reference as THE schedule of
+		// this run (the replay file then holds exactly that one).
+		fr := simrt.NewRand(rc.RunSeed, "focus")
+		for j := 0; j < 48; j++ {
+			fv := simapi.Variant{MapPolicy: rc.Variants[0].MapPolicy, MapSeed: rc.Variants[0].MapSeed}
+			if j%2 == 0 {
+				fv.Sched = &simrt.SchedConfig{Strategy: simrt.StratPrio, PrioRule: simrt.PrioRandomMainHi, PrioSeed: fr.Uint64(), StepBudget: defaultBudget}
+			} else {
+				fv.Sched = &simrt.SchedConfig{Strategy: simrt.StratRW, RWSeed: fr.Uint64(), RWMeanGap: 20, StepBudget: defaultBudget}
+			}
+			fo := w.execCLI(rc.Args, rc.Visits, &fv, false)
+			res.Stats["focus_schedules"]++
+			if fo.InitErr != "" || len(w.compareToRef(fo, wl, rc.Visits, ref)) > 0 || fo.Races > 0 {
+				rc.Variants[0] = fv
+				break
+			}
+		}
+	}
 	v := &rc.Variants[0]
 	w.calibrate(rc, v, wl)
 	out := w.execCLI(rc.Args, rc.Visits, v, false)
@@ -133,4 +164,25 @@ func (w *Worker) runC04CLI(rc *simapi.RunConfig) *simapi.RunResult {
 	res.Digest = hashStrings(strings.Join(recordsText(out), ""), fmt.Sprint(out.Sched.Hash, out.Map.Hash, out.Sched.Steps))
 	res.DigestParts = []string{"records=" + hashStrings(strings.Join(recordsText(out), "")), fmt.Sprintf("n_records=%d handover_hash=%x map_hash=%x steps=%d", len(out.Records), out.Sched.Hash, out.Map.Hash, out.Sched.Steps)}
 	return res
+}
+
+// atomicCheckers lists the selected checkers whose reference runs over the visited files
+// passed an atomic operation.
+func (w *Worker) atomicCheckers(wl *Workload, visits []simapi.Visit) []string {
+	set := map[string]bool{}
+	for _, vis := range visits {
+		for _, fi := range vis.Files {
+			for _, c := range wl.Checkers {
+				if e := w.refDiagsCLI(wl, c, vis.Pkg, fi, vis.DeclSeed); e != nil && e.Atomic {
+					set[c] = true
+				}
+			}
+		}
+	}
+	var out []string
+	for c := range set {
+		out = append(out, c)
+	}
+	sortStrings(out)
+	return out
 }
